@@ -17,8 +17,10 @@ CATS = ["a", "b", "dev-x", "dev", "a.b", "dev+", "dev_x", "deva", "x11", "x11-li
 PKGS = ["p", "q", "p-q", "p+", "p_x", "pq", "foo", "foo-bar"]
 BOUNDARY_CATS = ["dev", "dev-x", "dev+", "dev.x", "dev_x", "deva", "de", "x11", "x11-libs", "a", "a.b"]
 BOUNDARY_PKGS = ["foo", "foo-bar", "foo+", "foo_x", "fooa", "fo"]
-SLOTS = ["0", "1", "2.1"]
-SUBSLOTS = ["0", "1", "2"]
+SLOTS = ["0", "1", "2.1", "01", "9", "10"]
+SUBSLOTS = ["0", "1", "2", "02", "00", "10"]
+# slot / sub-slot spellings around the numeric-vs-text boundary: leading zeros, 9 vs 10, digits vs digits+letter
+SLOT_FAMILY = ["0", "00", "1", "01", "001", "2", "02", "9", "09", "10", "010", "1a", "1.0", "1_0", "a", "A"]
 REPOS = ["r1", "r2"]
 FLAGS = ["x", "y", "z"]
 USE_FORMS = ["%s", "-%s", "%s(+)", "%s(-)", "-%s(+)", "-%s(-)", "%s?", "!%s?", "%s=", "!%s="]
@@ -172,7 +174,7 @@ def one_attr_cpv(rng, f):
     return g, "rev"
 
 
-ATOM_EDITS = ["identical", "use-reorder", "blocker-strength", "ver-respelled", "rev-respelled", "subslot", "slotop",
+ATOM_EDITS = ["identical", "slot-respell", "subslot-respell", "use-reorder", "blocker-strength", "ver-respelled", "rev-respelled", "subslot", "slotop",
               "slot", "repo", "use-token", "use-default", "blocker", "op", "negate_vers", "ver-mutated", "cat", "pkg",
               "use-dup"]
 
@@ -217,6 +219,18 @@ def edit_atom(rng, f, edit):
         if f["op"] == "~":
             r = ""
         g["ver"], g["rev"] = v, r
+        return g, edit
+    if edit in ("slot-respell", "subslot-respell"):
+        # same number, other spelling (leading zeros); the base gets a numeric value first (adjusted in place)
+        which = "slot" if edit == "slot-respell" else "subslot"
+        if f.get("slot") is None:
+            f["slot"] = g["slot"] = rng.choice(["0", "1", "9", "10"])
+            if f.get("slotop") == "*":
+                f["slotop"] = g["slotop"] = None
+        if not (f.get(which) or "").isdigit():
+            f[which] = g[which] = rng.choice(["0", "1", "2", "9", "10", "01"])
+        v = f[which]
+        g[which] = v[1:] if (v.startswith("0") and len(v) > 1 and rng.random() < 0.5) else "0" + v
         return g, edit
     if edit == "subslot":
         if g["slot"] is None:
